@@ -417,6 +417,67 @@ theorem setSlice_broadcast (s : Seq α) (x : List α) (h : s.symbols = .ok x) (a
   simp only [List.map_append, List.map_take, List.map_drop]
   exact mapE_append _ _ _ _ _ (mapE_append _ _ _ _ _ (mapE_take _ _ _ h _) hrep) (mapE_drop _ _ _ h _)
 
+theorem decode_mem (alph : List α) (cs : List Int) (x : List α) (h : decode alph cs = .ok x) :
+    ∀ t ∈ x, t ∈ alph := by
+  induction cs generalizing x with
+  | nil => simp [decode, mapE] at h; subst h; simp
+  | cons c cs ih =>
+    obtain ⟨s, xs, hs, hxs, rfl⟩ := mapE_cons_inv _ _ _ _ h
+    intro t ht
+    rcases List.mem_cons.mp ht with rfl | ht
+    · exact List.mem_of_getElem? (decode1_ok hs).2.2
+    · exact ih xs hxs t ht
+
+/-- `sequence[a:b] = other_sequence` is the assignment of the other sequence's symbols. -/
+theorem setSliceSeq_spec (s item : Seq α) (x y : List α) (hs : s.symbols = .ok x) (hi : item.symbols = .ok y)
+    (a b : Option Int) :
+    ((∀ t ∈ y, t ∈ s.alph) →
+      y.length = (sliceBounds x.length a b).2 - (sliceBounds x.length a b).1 →
+      ∃ s', s.setSliceSeq a b item = .ok s' ∧
+        s'.symbols = .ok (x.take (sliceBounds x.length a b).1 ++ y ++ x.drop (sliceBounds x.length a b).2) ∧
+        s'.alph = s.alph ∧ s'.kind = s.kind) ∧
+    ((∃ t ∈ y, t ∉ s.alph) → s.setSliceSeq a b item = .error .alphabetError) := by
+  by_cases hext : extends_ s.alph item.alph = true
+  · -- the codes mean the same symbols in both alphabets
+    have hdec : decode s.alph (item.codes.map Int.ofNat) = .ok y := decode_prefix s.alph item.alph hext _ y hi
+    have hmem := decode_mem s.alph _ y hdec
+    constructor
+    · intro _ hl
+      rw [symbols_length s x hs] at hl ⊢
+      have hylen : y.length = item.codes.length := by
+        have := mapE_length _ _ _ hi; simpa using this
+      generalize hsb : sliceBounds s.codes.length a b = lohi at hl ⊢
+      obtain ⟨lo, hi'⟩ := lohi
+      have hplace : placeCodes s.codes a b item.codes = .ok (s.codes.take lo ++ item.codes ++ s.codes.drop hi') := by
+        have : item.codes.length = hi' - lo := by rw [← hylen]; exact hl
+        simp [placeCodes, hsb, this]
+      refine ⟨{ s with codes := s.codes.take lo ++ item.codes ++ s.codes.drop hi' },
+        by simp [Seq.setSliceSeq, hext, hplace], ?_, rfl, rfl⟩
+      unfold Seq.symbols decode at *
+      simp only [List.map_append, List.map_take, List.map_drop]
+      exact mapE_append _ _ _ _ _ (mapE_append _ _ _ _ _ (mapE_take _ _ _ hs _) hdec) (mapE_drop _ _ _ hs _)
+    · rintro ⟨t, ht, hn⟩
+      exact absurd (hmem t ht) hn
+  · have hext' : extends_ s.alph item.alph = false := by simpa using hext
+    constructor
+    · intro hall hl
+      obtain ⟨s', h1, h2⟩ := setSlice_symbols s x hs a b y hall hl
+      refine ⟨s', by simp [Seq.setSliceSeq, hext', hi, h1], h2, ?_, ?_⟩
+      · simp only [Seq.setSlice] at h1
+        split at h1
+        · simp at h1
+        · split at h1
+          · simp only [Except.ok.injEq] at h1; subst h1; rfl
+          · simp at h1
+      · simp only [Seq.setSlice] at h1
+        split at h1
+        · simp at h1
+        · split at h1
+          · simp only [Except.ok.injEq] at h1; subst h1; rfl
+          · simp at h1
+    · intro hbad
+      simp [Seq.setSliceSeq, hext', hi, (setSlice_rejects s a b y).1 hbad]
+
 end Laws
 
 end BiotiteModel.C03
